@@ -43,9 +43,9 @@ type Lazy struct {
 	Keys   []string
 	MaxLen int
 	Forced *Iface
-	CopyOf *Lazy   // this value is a (codec or clone) copy of another lazy value
+	CopyOf *Lazy    // this value is a (codec or clone) copy of another lazy value
 	Via    *Closure // copy function applied when forced (nil: structural deep copy)
-	deps   []*Lazy // copies to materialise as soon as this value is forced
+	deps   []*Lazy  // copies to materialise as soon as this value is forced
 	frozen string
 	topDoc bool
 }
